@@ -3,11 +3,15 @@ package checks
 import (
 	"encoding/json"
 	"fmt"
+	"os"
+	"path/filepath"
 	"strconv"
 	"strings"
+	"sync/atomic"
 
 	"github.com/dave/jennifer/jen"
 
+	"verif/internal/a2j"
 	"verif/internal/ev"
 	"verif/internal/explore"
 	"verif/internal/jh"
@@ -389,6 +393,75 @@ func runC15(r *ev.Recorder) {
 	if !done {
 		r.NotExhaustive("deadline inside the placement enumeration")
 	}
+	// program level: comments at the end of every item, and between all items, of every Block /
+	// Defs / Struct / Interface (case bodies included) of real programs; the syntax tree must
+	// stay the same
+	hostNames := map[string]bool{"Block": true, "Defs": true, "Struct": true, "Interface": true}
+	policies := []struct {
+		name string
+		fn   func(site int, name string, items []jen.Code) []jen.Code
+	}{
+		{"a line comment `c { \\` at the end of every item", func(site int, name string, items []jen.Code) []jen.Code {
+			if !hostNames[name] {
+				return items
+			}
+			for _, it := range items {
+				if st, ok := it.(*jen.Statement); ok && st != nil {
+					st.Comment("c { \\")
+				}
+			}
+			return items
+		}},
+		{"a two-line comment between all items", func(site int, name string, items []jen.Code) []jen.Code {
+			if !hostNames[name] {
+				return items
+			}
+			out := []jen.Code{jen.Comment("first } line\nsecond \" line")}
+			for _, it := range items {
+				out = append(out, it, jen.Commentf("%s", "between\n/ items"))
+			}
+			return out
+		}},
+		{"an empty comment and a code-like comment around every item", func(site int, name string, items []jen.Code) []jen.Code {
+			if !hostNames[name] {
+				return items
+			}
+			out := []jen.Code{}
+			for _, it := range items {
+				out = append(out, jen.Comment(""), it, jen.Comment("x := f(`raw`) // nested"))
+			}
+			return out
+		}},
+	}
+	stride := int64(12)
+	if r.Tier == ev.Thorough {
+		stride = 1
+	}
+	croot := filepath.Join(defaultGoroot, "src")
+	cfiles := goFilesBelow(croot)
+	cres := newResolver(defaultGoroot)
+	var cprogs atomic.Int64
+	explore.Range(int64(len(cfiles)), 0, r.Expired, func(_ int, i int64) {
+		if i%stride != 3%stride {
+			return
+		}
+		src, err := os.ReadFile(cfiles[i])
+		if err != nil || roundTrip(cfiles[i], src, cres.name, a2j.Hooks{}).Kind != "ok" {
+			return
+		}
+		for pi, pol := range policies {
+			b := roundTrip(cfiles[i], src, cres.name, a2j.Hooks{Items: pol.fn})
+			r.Eval(1)
+			cprogs.Add(1)
+			d := fmt.Sprintf("%s with %s", strings.TrimPrefix(cfiles[i], croot+"/"), pol.name)
+			r.Distinct(d)
+			if b.Kind != "ok" {
+				r.Violate(ev.Violation{Signature: "c15:program:" + b.Kind, What: d + ": " + b.Kind + " " + jh.Short(b.Detail, 300), Case: ev.JSON(c15Case{Kind: "program", Pos: pi, Desc: cfiles[i]}), Detail: b.Detail})
+			}
+		}
+	})
+	r.Note("program_level", map[string]any{"programs_with_comments": cprogs.Load(), "corpus_stride": stride})
+
 	// file level
 	ht := []string{"h1", "h two words", "h\nhmulti", "h {", "// h raw", "/* h block */"}
 	pt := []string{"p1", "Package p does", "p\npmulti", "p }", "// p raw", "/* p block */"}
@@ -442,6 +515,8 @@ func replayC15(raw json.RawMessage) (bool, string) {
 	}
 	var msg string
 	switch c.Kind {
+	case "program":
+		return true, "program-level comment cases are replayed by running the check"
 	case "place":
 		t, _ := strconv.Unquote(c.Text)
 		trail := 0
